@@ -255,8 +255,20 @@ def worker(task: Tuple) -> Dict[str, Any]:
             acc.ob("unknown", name + "(no small model)", key)
             continue
         acc.ob("sat", name, key)
+        # equal intern keys with different dimensions: on the real table the first registration is what
+        # both sides return (the law holds by identity; a wrong stored dimension is C01's subject), so
+        # this shows only where neither side was registered before: a candidate
+        dim_only = False
+        if kind == "unit" and comparable:
+            import measured
+
+            if isinstance(lhs, measured.Unit):
+                st2, _ = acc.P.check(p.cond, *extra, z3.Not(goal),
+                                     z3.Not(key_equal(lhs.dimension, rhs.dimension)[1]))
+                st3, _ = acc.P.check(p.cond, *extra, z3.Not(goal), key_equal(lhs.dimension, rhs.dimension)[1])
+                dim_only = st2 == "sat" and st3 == "unsat"
         acc.out["viol"].append((f"C02:{kind}:{lawname}", f"{cfg}: keys differ ({why}) at {sm}",
-                                replay(kind, lawname, law, bases, pbases, sm)))
+                                replay(kind, lawname, law, bases, pbases, sm)) + (("soft",) if dim_only else ()))
     acc.sample({"config": cfg, "paths": len(ex.paths), "law": f"{law[0]}  is  {law[1]}"})
     return acc.finish()
 
